@@ -37,7 +37,7 @@ def model_check(ctx):
 COMPONENT_SETS = [("Hz", "Ey", "Ex"), ("Ey", "Hx", "Ez", "Hy"), ("Hy", "Ex", "Ez"), ("Ez", "Hz", "Ex", "Hx"), ("Hx", "Ez", "Ey", "Hz", "Ex")]
 
 
-def _case(rng, n, ax):
+def _case(rng, n, ax, wrap_other=True):
     half = 8
     shape = [rng.randint(3, 4) for _ in range(3)]
     shape[ax] = 2 * half
@@ -49,6 +49,11 @@ def _case(rng, n, ax):
             bounds[f"min_{x}"] = bounds[f"max_{x}"] = kind_ax
         else:
             k = rng.choice(["periodic", "pec", "pmc"])
+            if wrap_other and ax in (0, 1) and a == 1 - ax:
+                # x / y plane with the OTHER of x / y periodic: the detector co-location stencil of Hz then reads the corner
+                # where the mirror halo of the symmetry axis meets the wrapped min-side halo of that axis (the full-volume
+                # co-located detector `fd` touches both index-0 edges, and that line lies outside the light cone)
+                k = "periodic"
             bounds[f"min_{x}"] = bounds[f"max_{x}"] = k
     lo = [rng.randrange(0, s - 1) for s in shape]
     hi = [rng.randrange(l + 1, s + 1) for l, s in zip(lo, shape)]
@@ -82,7 +87,7 @@ def gen_cases(ctx):
     for rep in range(1 if ctx.quick else 8):
         for ax in range(3):
             n += 1
-            yield _case(rng, n, ax)
+            yield _case(rng, n, ax, wrap_other=(rep % 2 == 0))
 
 
 def _on_plane(ft, p, ax):
